@@ -34,7 +34,7 @@ func init() {
 	fw.Register(&fw.Prop{
 		ID:    "C18",
 		Level: "exploration",
-		Rule: "One case = one history on the real app (4-5 validators, 6 users, 1-2 EVM chains with the bridge active, a pool of 10 licensee keys, 2 denoms). " +
+		Rule: "One case = one history on the real app (3-5 validators, 6 users, 1-2 EVM chains with the bridge active, a pool of 10 licensee keys, 2 denoms). " +
 			"A history is a seeded biased random walk over: direct licence tx (hostile addresses/amounts/months), attested sale block (1-2 claims, all validators or minority-then-rest; " +
 			"amounts pinned to funder balances +-1), activation (licensee / impostor / no licence / again), auth, legacy import, governance set funders/fee granter/sale contracts " +
 			"(incl. removal), funder balance moves, gifts, licensee spending, time travel (hours..years) and vesting probes. 'evaluations' counts field comparisons of the predicted " +
